@@ -21,6 +21,8 @@ DECIDED_MORE = ('Also: every file-delivering answer is dominated by the Range-he
 DECIDED = DECIDED + ' ' + DECIDED_MORE
 DECIDED_R6 = ('Round 6: the header dictionary is an object of this call; no range form under a guard that contradicts it; HeaderDict.append stores on every returning path.')
 DECIDED = DECIDED + ' ' + DECIDED_R6
+DECIDED_R7 = ('Round 7: a pre-check of a byte position tolerates the white space int() tolerates; the verb is read from the environ at every use; the (start, end) pair may be handed over whole.')
+DECIDED = DECIDED + ' ' + DECIDED_R7
 NOT_DECIDED = ('RFC 7233 arithmetic for every header string (integer semantics of the parser over all strings, e.g. multiple '
                'ranges, whitespace, huge numbers); equality of delivered bytes with the file slice at run time.')
 ASSUMPTIONS = ['file.read(n) returns at most n bytes', 'email.utils.formatdate emits whole seconds']
